@@ -1,8 +1,10 @@
 """C14 - shared immutable objects are safe to use from many threads."""
 import concurrent.futures as cf
+import glob
 import json
 import os
 import re
+import shutil
 import subprocess
 import vlib
 
@@ -14,25 +16,53 @@ LEVEL_TEXT = ('Threads.tla models every const entry point as an access program o
               'that each concurrent call returns bit-for-bit what it returns alone.')
 DESIGN_REF = 'DESIGN.md section 4, C14'
 LEVEL_NOTE = ('Trusted: TLC, ThreadSanitizer\'s happens-before analysis of the executed pairs (a conflicting pair is reported whatever the actual timing), '
-              'the access-program table in Threads.tla (read from the code). GravityModel/MagneticModel and their circles are driven on synthetic model files; Intersect counters, '
+              'the access-program table in Threads.tla (read from the code; its "static" steps are checked against the accessor calls observed at link '
+              'time, and MC_Threads ASSUMEs that every singleton accessor declared in the headers has a program), the choice of inputs of each program '
+              '(one lattice of branch classes per solver; not measured against branch coverage). A violation without a data race (a lock-protected '
+              'check-then-act) is only seen by the value law, i.e. when a collision actually happens in the 8000 calls per thread of the geoid programs. '
+              'GravityModel/MagneticModel and their circles are driven on synthetic model files; Intersect counters, '
               'NearestNeighbor statistics and root-table growth are excluded by the property.')
 TECHNIQUE = 'TLA+ interleaving model (TLC) + execution of every model configuration under ThreadSanitizer + TLC trace validation'
 
-CFG = 'INIT Init\nNEXT Next\nCONSTANTS NThreads = 3 Protocol = "%s" PairMode = "%s"\nINVARIANTS NoRace Progress%s\nCHECK_DEADLOCK FALSE\n'
+CFG = ('INIT Init\nNEXT Next\nCONSTANTS NThreads = 3 Protocol = "%s" PairMode = "%s" HeaderAccessors = {%s}\n'
+       'INVARIANTS NoRace Progress%s\nCHECK_DEADLOCK FALSE\n')
+
+
+def header_accessors():
+    """The singleton accessors of the public API, 'static const X& Name();', read from the headers of the tree under
+    test.  MC_Threads ASSUMEs that each is a static of the model used by some access program; the driver is linked with
+    --wrap for each, so that it can log which of them main() and the threads called (an accessor the driver does not
+    know is a link error, i.e. a framework error)."""
+    acc = []
+    for h in sorted(glob.glob(os.path.join(vlib.REPO, 'include', 'GeographicLib', '*.hpp'))):
+        cls = os.path.basename(h)[:-4]
+        for m in re.finditer(r'static\s+const\s+\w+&\s+(\w+)\s*\(\s*\)\s*;', open(h, errors='replace').read()):
+            acc.append((cls, m.group(1)))
+    if not acc:
+        raise vlib.FrameworkError('no singleton accessors found in the headers')
+    return acc
+
+
+def mangled(cls, fn):
+    return '_ZN13GeographicLib%d%s%d%sEv' % (len(cls), cls, len(fn), fn)
 
 
 def run(ctx):
     mode = 'cover' if ctx.quick else 'all'
+    acc = header_accessors()
+    accset = ', '.join('"%s::%s"' % a for a in acc)
+    ctx.cov['models']['header_accessors'] = len(acc)
     # M1: all interleavings, protocol as implemented
-    cfg = ctx.cfg('MC_Threads_eager', CFG % ('eager', mode, ' Emit'))
+    cfg = ctx.cfg('MC_Threads_eager', CFG % ('eager', mode, accset, ' Emit'))
     vals = [v for v in ctx.generate('MC_Threads', cfg, workers=vlib.NCPU, timeout=3000) if v[0] == 'cfg']
     # negative control: the lazy cache protocol must violate NoRace in the model (the model is not vacuous)
-    ncfg = ctx.cfg('MC_Threads_lazy', CFG % ('lazy', 'cover', ''))
+    ncfg = ctx.cfg('MC_Threads_lazy', CFG % ('lazy', 'cover', accset, ''))
     res = vlib.tlc('MC_Threads', ncfg, workers=4, timeout=600)
     if 'Invariant NoRace is violated' not in res.out:
         raise vlib.FrameworkError('negative control failed: lazy protocol did not violate NoRace in the model')
     ctx.cov['models']['negative_control_lazy'] = 'NoRace violated as expected'
-    exe = vlib.build_driver('drv_threads', 'tsan')
+    wrap = ['-Wl,--wrap=' + mangled(c, f) for c, f in acc] + ['-Wl,--wrap=' + mangled('OSGB', 'computenorthoffset')]
+    exe = vlib.build_driver('drv_threads', 'tsan', extra_flags=wrap)
     tmp = ctx.path('data')
     os.makedirs(tmp, exist_ok=True)
     env = dict(os.environ, TSAN_OPTIONS='halt_on_error=0 exitcode=66 second_deadlock_stack=1 report_signal_unsafe=0')
@@ -40,23 +70,39 @@ def run(ctx):
     def one(iv):
         i, v = iv
         a, b, cold = v[1], v[2], v[3]
-        d = os.path.join(tmp, str(i % 64))          # no two concurrent runs share a scratch directory
-        try:
-            p = subprocess.run(['timeout', '120', exe, a, b, '1' if cold else '0', '3', d], stdout=subprocess.PIPE,
-                               stderr=subprocess.PIPE, env=env, universal_newlines=True, errors='replace')
-        except Exception as e:          # noqa
-            return dict(e='conc', a=a, b=b, cold=cold, known=True, same=False, race=False, rc=99, loc=str(e))
-        rec = None
-        for ln in p.stdout.splitlines():
-            if ln.startswith('{'):
-                rec = json.loads(ln)
-        if rec is None:
+        rec, p, err = None, None, ''
+        for attempt in range(3):
+            d = os.path.join(tmp, '%d-%d' % (i, attempt))      # a scratch directory of its own for every run
+            started = False
+            try:
+                p = subprocess.run(['timeout', '120', exe, a, b, '1' if cold else '0', '3', d, str(ctx.seed)], stdout=subprocess.PIPE,
+                                   stderr=subprocess.PIPE, env=env, universal_newlines=True, errors='replace')
+                for ln in p.stdout.splitlines():
+                    if ln.startswith('{'):
+                        r = json.loads(ln)
+                        if r.get('e') == 'start':
+                            started = True
+                        else:
+                            rec = r
+                err = 'rc=%d %s' % (p.returncode, p.stderr[-600:])
+            except Exception as e:          # noqa
+                err = str(e)
+            shutil.rmtree(d, ignore_errors=True)
+            if started:
+                break
+            # the driver died while building its objects and data files, before any thread was started: not an
+            # observation of the property; try again, then give up as a framework error
+        if not started:
+            raise vlib.FrameworkError('drv_threads %s %s %s failed during set-up three times: %s' % (a, b, cold, err))
+        if rec is None:                     # started, but no record: the run itself crashed or timed out
             rec = dict(e='conc', a=a, b=b, cold=cold, known=True, same=False)
         race = 'ThreadSanitizer: data race' in p.stderr
         loc = ''
         if race:
             m = re.search(r'(Write|Read) of size \d+ at .*?\n((?:\s+#\d.*\n){1,4})', p.stderr)
             loc = ' | '.join(x.strip() for x in (m.group(2).splitlines() if m else [])[:3])[:400]
+        elif p.returncode not in (0, 66):
+            loc = p.stderr[-300:]
         rc = p.returncode if p.returncode not in (0, 66) else 0
         rec.update(race=race, rc=rc, loc=loc)
         return rec
@@ -77,9 +123,12 @@ def run(ctx):
     return ctx.finish(RULE, TRUSTED)
 
 
-RULE = ('TLC enumerates configurations <<program A, program B, cold/warm>> over 53 access programs (quick: every program with itself and with three '
+RULE = ('TLC enumerates configurations <<program A, program B, cold/warm>> over 59 access programs (quick: every program with itself and with three '
         'others; thorough: all unordered pairs) and all interleavings of 3 threads for each; every configuration is executed on the real library '
-        'built with -fsanitize=thread (3 threads, barrier start, 3 iterations). distinct_nontrivial = configurations executed.')
+        'built with -fsanitize=thread (3 threads, barrier start, 8 iterations - 24 for the DST, 8000 for the thread-safe geoids -, every thread '
+        'with its own inputs, every solver program over a lattice of branch classes). The singleton accessors declared in the headers are '
+        'intercepted at link time: TLC checks that a cold configuration was cold and that the statics touched are those of the access programs. '
+        'distinct_nontrivial = configurations executed.')
 TRUSTED = ['TLC', 'ThreadSanitizer', 'Threads.tla access-program table']
 
 
